@@ -42,9 +42,10 @@ import parser.Wrappers  # noqa: E402,F401
 seams.install_solver_seams()
 seams.install_deadline_probe()
 seams.install_hash_seam()
-from sim import simmp  # noqa: E402
+from sim import simmp, simfs  # noqa: E402
 
 simmp.install()
+simfs.install()
 get_env().factory.all_solvers()
 
 import engines  # noqa: E402
